@@ -496,21 +496,29 @@ fn main() {
     }
     // documents: the fixed family, then n random ones.  n >= 500 (thorough
     // tier): every fixed document on all 108 configurations.  Otherwise:
-    // single-field documents of every class and all subscription documents
-    // on all 108 configurations, the other query/mutation documents on the
-    // 54 configurations of the `execute` transport (execute_stream hands
-    // queries and mutations to the same execute_once).
+    // single-field documents of every class on all 108 configurations, the
+    // other query/mutation documents on the 54 configurations of the
+    // `execute` transport (execute_stream hands queries and mutations to the
+    // same execute_once), the other subscription documents on the 54
+    // configurations of `execute_stream`.
     let full = a.n >= 500;
     #[derive(Clone, Copy, PartialEq)]
     enum Cover {
         All,
         ExecuteOnly,
+        StreamOnly,
         Random,
     }
     let mut docs: Vec<(Op, String, Cover)> = vec![];
     for op in OPS {
         for (i, (d, single)) in fixed_docs(op, full).iter().enumerate() {
-            let cover = if full || *single || op == Op::Subscription { Cover::All } else { Cover::ExecuteOnly };
+            let cover = if full || *single {
+                Cover::All
+            } else if op == Op::Subscription {
+                Cover::StreamOnly // `execute` answers every subscription "not supported on this transport"
+            } else {
+                Cover::ExecuteOnly
+            };
             docs.push((op, print_doc(d, i), cover));
         }
     }
@@ -542,7 +550,7 @@ fn main() {
             for si in 0..schemas.len() {
                 for rm in MODES {
                     for stream in [false, true] {
-                        if !stream || *cover == Cover::All {
+                        if *cover == Cover::All || (stream && *cover == Cover::StreamOnly) || (!stream && *cover == Cover::ExecuteOnly) {
                             cfgs.push((si, rm, stream));
                         }
                     }
